@@ -19,7 +19,7 @@ def render(rng, g, toks, ws):
     out = ""
     offs = []
     for t in toks:
-        out += rng.choice(pool)
+        out += rng.choice(pool) if ws == "none" else lf.gap(rng, lf.WS_ATOMS, pool)
         offs.append(len(out.encode()))
         out += FOREIGN if t == "?" else g.terms[t]
     tail = rng.choice(pool[:3])
@@ -128,7 +128,9 @@ def run(rep, tier, seed):
     glr = gen(rng, tier, "GLR", "LALR_RN", n // 2)
     for c in glr:
         c.max_trees = 1
+    lf.add_histories(rng, lr)
     lf.run_cases(lr, extra_requests=lambda c: ["rawdet"])
+    lf.add_histories(rng, glr)
     lf.run_cases(glr, model=False)
     check(rep, lr, glr, proofs_ok)
 
@@ -166,6 +168,7 @@ def replay(rep, path):
     algo = p.get("algo", "LR")
     c = lf.Case(p["grammar"], p["settings"].split(" "),
                 [(algo, "0", inp, {"toks": toks, "expect": expected_error(g, toks), "offs": offs, "end": end})], gram=g)
+    lf.apply_replay_history(c, p)
     if algo == "GLR":
         c.max_trees = 1
         lf.run_cases([c], model=False)
